@@ -1020,11 +1020,14 @@ class Exec:
         for x in e.values:
             v = self.eval(x, fr)
             t = self.truth(v)
+            # `a and b` / `a or b` return one of the OPERANDS: a symbolic boolean is replaced by the truth value this path
+            # has decided for it; a symbolic number (``limit or default``) stays the number it is
+            symb = is_z3(v) and z3.is_bool(v)
             if is_and and not t:
-                return v if not is_z3(v) else False
+                return False if symb else v
             if not is_and and t:
-                return v if not is_z3(v) else True
-        return v if not is_z3(v) else (True if is_and else False)
+                return True if symb else v
+        return (bool(t) if (is_z3(v) and z3.is_bool(v)) else v)
 
     def ev_Compare(self, e, fr):
         from .ops import compare
